@@ -30,6 +30,8 @@ func init() {
 			{ID: "C12.R12", Text: "the position a reopen resumes from is the acknowledged event's own: the function stored into ListenerContext.Ack moves the position to the offset of the event it was created for, exactly once (same rule as C04.R10)", Run: ackMoves},
 			{ID: "C12.R13", Text: "a re-open is admitted only while its session lasts: the close ends the session before it closes the streams and empties the position map (same rule as C13.R28)", Run: sessionAdvancedFirst},
 			{ID: "C12.R14", Text: "a transient end stays transient after a rebalance: Rebalance closes the streams with Close(false), so the flag the end listener reads is not left raised (same rule as C15.R20)", Run: c11r3},
+			{ID: "C12.R16", Text: "below 5.5.0 every stream end of the next session is handled: the serial close asks every assigned vBucket (its loop is left only by its bound test) and lowers its closing flag on every way out, so no later end waits for a token nobody puts (same rule as C18.R8)", Run: serialCloseTokens},
+			{ID: "C12.R17", Text: "a re-open answered with a rollback loses nothing above the position reached, so a finite stream stops only after every event up to its bound was delivered: the catch-up filter skips ⇔ need ∧ seq ≤ F and the first event beyond F ends it without being swallowed (same rule as C08.R5)", Run: c08r5},
 			{ID: "C12.R15", Text: "every transient end gets its own re-open request: openStream waits for nothing but its request and never reports success without making it (same rule as C11.R26)", Run: openDoesNotWait},
 			{ID: "C12.R6", Text: "a reopened vBucket keeps being streamed: the observer that reopen reuses has its delivery/end switches thrown only by Stream.Close (same rule as C03.R6)", Run: switchOwner},
 		},
@@ -128,10 +130,24 @@ func c12r1(c *Ctx, id string) {
 				return "a transient end (" + causes[st.C("cause")] + ") does not start exactly one reopen"
 			}
 			// (receiver, the ended vBucket[, the current session token])
-			if len(goes[0].Args) < 2 || len(goes[0].Args) > 3 || avString(goes[0].Args[1]) != ec+".Event.VbID" && !strings.HasSuffix(avString(goes[0].Args[1]), ".VbID") {
+			// the arguments by the type of the input they are for: a context or logger threaded through is neither
+			var aVb, aSess AV
+			for i, p := range reopen.Params {
+				if i >= len(goes[0].Args) || i == 0 {
+					continue
+				}
+				if bt, isB := p.Type().Underlying().(*types.Basic); isB && bt.Info()&types.IsInteger != 0 {
+					if bt.Kind() == types.Uint16 {
+						aVb = goes[0].Args[i]
+					} else {
+						aSess = goes[0].Args[i]
+					}
+				}
+			}
+			if aVb == nil || avString(aVb) != ec+".Event.VbID" && !strings.HasSuffix(avString(aVb), ".VbID") {
 				return "reopen started for something else than the ended vBucket: " + goes[0].String()
 			}
-			if len(goes[0].Args) == 3 && !strings.HasPrefix(strings.TrimPrefix(avString(goes[0].Args[2]), "?int "), recv+".") {
+			if aSess != nil && !strings.HasPrefix(strings.TrimPrefix(avString(aSess), "?int "), recv+".") {
 				return "reopen started with a session token that is not the stream's current one: " + goes[0].String()
 			}
 			if len(adds) != 0 || len(sends) != 0 {
@@ -255,7 +271,23 @@ func c12r3(c *Ctx, id string) {
 	ro := w.Method("stream", "stream", "reopenStream")
 	c.need(os != nil && ro != nil, id, "stream.openStream / reopenStream")
 	c.see(os)
-	vb := "param(" + os.Params[1].Name() + ")"
+	// the inputs by type: the vBucket id is the uint16 one, the session token (if any) the other integer; a context or a
+	// logger threaded through the chain is neither
+	paramOf := func(fn *ssa.Function, pick func(types.Type) bool) *ssa.Parameter {
+		for _, p := range fn.Params[1:] {
+			if pick(p.Type()) {
+				return p
+			}
+		}
+		return nil
+	}
+	isSession := func(t types.Type) bool {
+		bt, ok := t.Underlying().(*types.Basic)
+		return ok && bt.Info()&types.IsInteger != 0 && bt.Kind() != types.Uint16
+	}
+	osVb, roVb, roSess := paramOf(os, isUint16), paramOf(ro, isUint16), paramOf(ro, isSession)
+	c.need(osVb != nil && roVb != nil, id, "the vBucket id inputs of openStream / reopenStream")
+	vb := "param(" + osVb.Name() + ")"
 	n := 0
 	allInstrs(os, func(in ssa.Instruction) {
 		cc := callOf(in)
@@ -301,19 +333,27 @@ func c12r3(c *Ctx, id string) {
 	// current one, both are atoms of an equality-only group (moved ⇒ the stream was closed meanwhile)
 	var groups []Group
 	sessionP, sessionF := "", ""
-	if len(ro.Params) == 3 {
-		if bt, ok := ro.Params[2].Type().Underlying().(*types.Basic); ok && bt.Info()&types.IsInteger != 0 {
+	if roSess != nil {
+		{
 			// the comparison may sit in the loop itself or in a small accessor the loop hands its session argument to
 			scan := []*ssa.Function{ro}
 			allInstrs(ro, func(in ssa.Instruction) {
 				if cc := callOf(in); cc != nil && cc.StaticCallee() != nil && cc.StaticCallee() != os && cc.StaticCallee().Blocks != nil && w.inModule(cc.StaticCallee()) {
 					for _, a := range cc.Args {
-						if unwrap(a) == ssa.Value(ro.Params[2]) {
+						if unwrap(a) == ssa.Value(roSess) {
 							scan = append(scan, cc.StaticCallee())
 						}
 					}
 				}
 			})
+			// … or one accessor further down (sessionEnded(x) { return currentSession() != x })
+			for _, g := range append([]*ssa.Function{}, scan[1:]...) {
+				for f := range w.syncCallees(g, 2, false) {
+					if f != os && w.inModule(f) && f.Blocks != nil && pkgPathOf(f) == pkgPathOf(ro) {
+						scan = append(scan, f)
+					}
+				}
+			}
 			for _, g := range scan {
 				allInstrs(g, func(in ssa.Instruction) {
 					if cc := callOf(in); cc != nil && strings.Contains(calleeName(cc), "sync/atomic.") && strings.HasSuffix(calleeName(cc), ".Load") && len(cc.Args) == 1 {
@@ -324,7 +364,7 @@ func c12r3(c *Ctx, id string) {
 				})
 			}
 			if sessionF != "" {
-				sessionP = ro.Params[2].Name()
+				sessionP = roSess.Name()
 				groups = []Group{{Atoms: []string{sessionF, sessionP}, EqOnly: true}}
 			}
 		}
@@ -346,7 +386,13 @@ func c12r3(c *Ctx, id string) {
 		for _, e := range out.Trace {
 			if e.Name == fname(os) {
 				nOpen++
-				if len(e.Args) != 2 || avString(e.Args[1]) != ro.Params[1].Name() && !strings.Contains(avString(e.Args[1]), ro.Params[1].Name()) {
+				var a AV
+				for i, p := range os.Params {
+					if p == osVb && i < len(e.Args) {
+						a = e.Args[i]
+					}
+				}
+				if a == nil || avString(a) != roVb.Name() && !strings.Contains(avString(a), roVb.Name()) {
 					return "reopens another vBucket: " + e.String()
 				}
 			}
@@ -491,6 +537,22 @@ func c12r5(c *Ctx, id string) {
 	}
 	if n < 10 {
 		c.Undecided(id, "floor", 0, "only %d offset literals in the handlers", n)
+	}
+	// … and so does every offset any other method of the observer builds (a helper the handlers share)
+	isHandler := map[*ssa.Function]bool{}
+	for _, h := range oi.handlers {
+		isHandler[h] = true
+	}
+	for _, fn := range w.ModFuncs {
+		root := rootFn(fn)
+		if isHandler[root] || root.Signature.Recv() == nil || recvTypeName(root.Signature.Recv().Type()) != oi.typ.Obj().Name() || pkgPathOf(root) != oi.typ.Obj().Pkg().Path() || fn != root {
+			continue
+		}
+		for _, l := range w.litsIn(fn, off) {
+			c.see(fn)
+			got := l.Table["LatestSeqNo"]
+			c.Check(got == "recv.latestSeqNo", id, "end-bound@"+fname(fn), l.Pos, "LatestSeqNo ← "+got, "LatestSeqNo ← "+got+": the position writer would store this over the end bound sampled at open, and a reopen would request the wrong end")
+		}
 	}
 	// the field has no writer but the constructor
 	f := w.Field("couchbase", oi.typ.Obj().Name(), "latestSeqNo")
